@@ -80,6 +80,7 @@ type FuncExec struct {
 	frames     map[*ssa.Function]*frameSpec
 	invDepth   int
 	inGlobalInv bool
+	anchorExtra map[string]Value
 	inLemma     bool
 	noLemmas    bool
 	lemmaDone   map[int]bool
